@@ -70,7 +70,7 @@ Fixpoint rt (d : dialect) (n : node) : list tok :=
       else TFn FMod :: TLP :: rt d a ++ TComma :: rt d b ++ [TRP]
   | NSQLCall2 f a b => TFn f :: TLP :: rt d a ++ TComma :: rt d b ++ [TRP]
   | NSQLPrefix p a => prefixtoks p ++ rt d a
-  | NINSubquery neg a s => rt d a ++ insub_op neg ++ TLP :: rt d s ++ [TRP]
+  | NINSubquery neg a s => insub_repr (insub_op neg) (rt d a) (rt d s)
   | NBad => [TBad]
   end.
 
@@ -79,6 +79,13 @@ Proof. reflexivity. Qed.
 Ltac st_norm :=
   repeat first [ (rewrite sql_tokens_cons_plain by (intros ?; discriminate))
                | rewrite sql_tokens_app | rewrite sql_tokens_nil_eq ].
+
+Lemma sql_tokens_insub neg a s :
+  sql_tokens (insub_repr (insub_op neg) a s) = insub_repr (insub_op neg) (sql_tokens a) (sql_tokens s).
+Proof.
+  unfold insub_repr. rewrite is_lp_headed_sql. destruct (is_lp_headed a); cbn [app]; st_norm;
+    rewrite sql_tokens_insub_op; reflexivity.
+Qed.
 
 Lemma sql_tokens_render d n : sql_tokens (render d n) = rt d n.
 Proof.
@@ -94,7 +101,7 @@ Proof.
   - unfold seq_repr. cbn [join_toks app]. st_norm. rewrite IHn1, IHn2.
     rewrite <- app_assoc. reflexivity.
   - rewrite sql_tokens_app, sql_tokens_prefixtoks, IHn. reflexivity.
-  - cbn [app]. st_norm. rewrite sql_tokens_insub_op, IHn1, IHn2. reflexivity.
+  - rewrite sql_tokens_insub, IHn1, IHn2. reflexivity.
   - reflexivity.
 Qed.
 
@@ -194,12 +201,22 @@ Section Parse.
     parse pt (S f) minp (t :: r) = pbind (unary pt f (t :: r)) (fun x => loop pt f minp (fst x) (snd x)).
   Proof. intros H. destruct t; try reflexivity. congruence. Qed.
 
+  (* an IN-subquery that renders itself parenthesised *)
+  Definition closed_rt (n : node) : bool :=
+    match n with NINSubquery _ a _ => is_lp_headed (rt d a) | _ => false end.
+  Lemma closed_insub_rt n : closed_insub d n = closed_rt n.
+  Proof. destruct n; try reflexivity. cbn [closed_insub closed_rt]. apply is_lp_headed_rt. Qed.
+  (* renderings the parser's `unary` level reads whole, whatever follows *)
+  Definition uform (n : node) : bool := unary_ok n || closed_rt n.
+
   Definition lvl_ok (minp : nat) (n : node) : Prop :=
     match n with
     | NSQLPrefix PNot _ => minp <= p_not pt
-    | NINSubquery _ _ _ => minp <= p_in pt
+    | NINSubquery _ _ _ => closed_rt n = true \/ minp <= p_in pt
     | _ => True
     end.
+  Lemma lvl_ok_0 n : lvl_ok 0 n.
+  Proof. destruct n as [| | | | | | |[]| |]; cbn [lvl_ok]; try exact I; try lia; right; lia. Qed.
 
   (* a complete rendering, followed by a closing token, parses to its meaning *)
   Definition Gs (n : node) : Prop :=
@@ -207,8 +224,17 @@ Section Parse.
       parse pt f minp (rt d n ++ rest) = POk (denote n, rest).
   (* ... and, when it is a unary-level expression, whatever follows *)
   Definition Us (n : node) : Prop :=
-    unary_ok n = true ->
+    uform n = true ->
     forall f rest, need n <= f -> unary pt f (rt d n ++ rest) = POk (denote n, rest).
+
+  Lemma uform_of_unary_ok n : unary_ok n = true -> uform n = true.
+  Proof. intros H. unfold uform. now rewrite H. Qed.
+  Lemma uform_notprefix n : uform n = true -> is_notprefix n = false.
+  Proof.
+    unfold uform, unary_ok. intros H. apply orb_true_iff in H as [H|H].
+    - apply andb_true_iff in H as [_ H]. now apply negb_true_iff in H.
+    - destruct n; try discriminate. reflexivity.
+  Qed.
 
   (* the first token of a rendering *)
   Lemma rt_head n :
@@ -224,15 +250,16 @@ Section Parse.
     - destruct p; cbn [rt prefixtoks app]; try discriminate; eexists _, _; (split; [reflexivity|discriminate]).
     - apply andb_true_iff in W as [W _]. apply andb_true_iff in W as [W U].
       unfold unary_ok in U. apply andb_true_iff in U as [_ U]. apply negb_true_iff in U.
-      destruct (IHn1 W U) as (t & r & E & Ht). cbn [rt]. rewrite E. cbn [app].
-      eexists _, _; split; [reflexivity|exact Ht].
+      destruct (IHn1 W U) as (t & r & E & Ht). cbn [rt]. unfold insub_repr.
+      destruct (is_lp_headed (rt d n1)).
+      + eexists _, _; split; [reflexivity|discriminate].
+      + rewrite E. cbn [app]. eexists _, _; split; [reflexivity|exact Ht].
   Qed.
 
-  Lemma G_of_U n : wf n = true -> unary_ok n = true -> Us n -> Gs n.
+  Lemma G_of_U n : wf n = true -> uform n = true -> Us n -> Gs n.
   Proof.
     intros W U HU f minp rest Hf Hs _.
-    assert (N : is_notprefix n = false).
-    { unfold unary_ok in U. apply andb_true_iff in U as [_ U]. now apply negb_true_iff in U. }
+    pose proof (uform_notprefix n U) as N.
     destruct (rt_head n W N) as (t & r & E & Ht).
     assert (6 <= need n) by (destruct n; cbn [need]; lia).
     fuel f. rewrite E. cbn [app]. rewrite parse_nonnot by exact Ht.
@@ -246,8 +273,7 @@ Section Parse.
       primary pt f (TLP :: rt d n ++ TRP :: rest) = POk (denote n, rest).
   Proof.
     intros HG f rest Hf. fuel f. cbn [primary].
-    rewrite HG; [reflexivity|lia|exact I|].
-    destruct n; cbn [lvl_ok]; try exact I; try lia. destruct p; try exact I; lia.
+    rewrite HG; [reflexivity|lia|exact I|apply lvl_ok_0].
   Qed.
 
   Lemma sqlop_app op s1 s2 rest :
@@ -265,13 +291,14 @@ Section Parse.
     destruct s; try discriminate. eauto 10.
   Qed.
 
-  Lemma not_unary_ok n :
-    unary_ok n = false ->
-    (exists a, n = NSQLPrefix PNot a) \/ (exists neg a s, n = NINSubquery neg a s).
+  Lemma not_uform n :
+    uform n = false ->
+    (exists a, n = NSQLPrefix PNot a) \/
+    (exists neg a s, n = NINSubquery neg a s /\ is_lp_headed (rt d a) = false).
   Proof.
-    destruct n; cbn; try discriminate.
+    unfold uform. destruct n; cbn; try discriminate.
     - destruct p; cbn; try discriminate. left; eauto.
-    - right; eauto.
+    - intros H. right. eauto 10.
   Qed.
 
   Lemma insub_unwrapped t r X :
@@ -282,33 +309,41 @@ Section Parse.
     destruct (r ++ X) eqn:E2; [|discriminate].
     apply app_eq_nil in E2 as [_ E2]. contradiction.
   Qed.
-  Lemma insub_tail_nonempty neg k : insub_op neg ++ TLP :: [TSub k] ++ [TRP] <> [].
+  Lemma insub_tail_nonempty neg k : insub_op neg ++ [TLP] ++ [TSub k] ++ [TRP] <> [].
   Proof. destruct neg; discriminate. Qed.
+
+  (* an unparenthesised IN-subquery is always wrapped by SQLOp *)
+  Lemma open_insub_wrapped neg a s :
+    wf (NINSubquery neg a s) = true -> is_lp_headed (rt d a) = false ->
+    is_lp_headed (rt d (NINSubquery neg a s)) || is_null_text (rt d (NINSubquery neg a s)) = false.
+  Proof.
+    intros W C. destruct (insub_shape neg a s W) as (t & r & k & E & Ht & -> & Wa & Ua).
+    cbn [rt]. unfold insub_repr. rewrite C.
+    destruct (is_lp_headed _ || is_null_text _) eqn:HW; [|reflexivity]. exfalso.
+    rewrite E in HW, C.
+    change ((t :: r) ++ insub_op neg ++ [TLP] ++ [TSub k] ++ [TRP]) with
+        (t :: r ++ insub_op neg ++ [TLP] ++ [TSub k] ++ [TRP]) in HW.
+    apply insub_unwrapped in HW; [congruence|apply insub_tail_nonempty].
+  Qed.
 
   (* an operand in right-hand (or any closed) position *)
   Lemma RO n : wf n = true -> Gs n -> Us n ->
     forall f minp rest, need n + 5 <= f -> stops rest ->
-      (bare_insub d n = true -> minp <= p_in pt) ->
       parse pt f minp (wrap (rt d n) ++ rest) = POk (denote n, rest).
   Proof.
-    intros W HG HU f minp rest Hf Hs Hb. unfold wrap.
+    intros W HG HU f minp rest Hf Hs. unfold wrap.
     destruct (is_lp_headed (rt d n) || is_null_text (rt d n)) eqn:HW.
     - (* left as it is *)
-      destruct (unary_ok n) eqn:U.
+      destruct (uform n) eqn:U.
       + assert (exists t r, rt d n = t :: r /\ t <> TNot) as (t & r & E & Ht).
         { destruct (rt d n) as [|t r]; [discriminate|]. exists t, r. split; [reflexivity|].
           intros ->. discriminate. }
         fuel f. rewrite E. cbn [app]. rewrite parse_nonnot by exact Ht.
         change (t :: r ++ rest) with ((t :: r) ++ rest). rewrite <- E.
         rewrite (HU U) by lia. cbn [pbind fst snd]. fuel f. now apply loop_stops.
-      + destruct (not_unary_ok n U) as [(a & ->)|(neg & a & s & ->)].
+      + exfalso. destruct (not_uform n U) as [(a & ->)|(neg & a & s & -> & C)].
         * cbn in HW. discriminate.
-        * destruct (insub_shape neg a s W) as (t & r & k & E & Ht & -> & Wa & Ua).
-          apply HG; [lia|exact Hs|]. cbn [lvl_ok]. apply Hb.
-          cbn [bare_insub]. rewrite is_lp_headed_rt. cbn [rt] in HW. rewrite E in *.
-          change ((t :: r) ++ insub_op neg ++ TLP :: [TSub k] ++ [TRP]) with
-              (t :: r ++ insub_op neg ++ TLP :: [TSub k] ++ [TRP]) in HW.
-          eapply insub_unwrapped; [apply (insub_tail_nonempty neg k)|exact HW].
+        * rewrite (open_insub_wrapped neg a s W C) in HW. discriminate.
     - (* parenthesised *)
       cbn [app]. rewrite <- app_assoc. cbn [app].
       fuel f. rewrite parse_nonnot by discriminate. fuel f. cbn [unary].
@@ -321,51 +356,25 @@ Section Parse.
       (forall g, m <= g -> loop pt g 0 (denote n) rest = K) ->
       parse pt f 0 (wrap (rt d n) ++ rest) = K.
 
-  Lemma L_generic n : wf n = true -> Gs n -> Us n ->
-    (is_insub n = false \/ bare_insub d n = false) -> Ls n.
+  Lemma L_generic n : wf n = true -> Gs n -> Us n -> Ls n.
   Proof.
-    intros W HG HU Hk f rest K m Hf HK. unfold wrap.
+    intros W HG HU f rest K m Hf HK. unfold wrap.
     destruct (is_lp_headed (rt d n) || is_null_text (rt d n)) eqn:HW.
-    - destruct (unary_ok n) eqn:U.
+    - destruct (uform n) eqn:U.
       + assert (exists t r, rt d n = t :: r /\ t <> TNot) as (t & r & E & Ht).
         { destruct (rt d n) as [|t r]; [discriminate|]. exists t, r. split; [reflexivity|].
           intros ->. discriminate. }
         fuel f. rewrite E. cbn [app]. rewrite parse_nonnot by exact Ht.
         change (t :: r ++ rest) with ((t :: r) ++ rest). rewrite <- E.
         rewrite (HU U) by lia. cbn [pbind fst snd]. apply HK. lia.
-      + exfalso. destruct (not_unary_ok n U) as [(a & ->)|(neg & a & s & ->)].
+      + exfalso. destruct (not_uform n U) as [(a & ->)|(neg & a & s & -> & C)].
         * cbn in HW. discriminate.
-        * destruct Hk as [Hk|Hk]; [discriminate|].
-          destruct (insub_shape neg a s W) as (t & r & k & E & Ht & -> & Wa & Ua).
-          cbn [bare_insub] in Hk. rewrite is_lp_headed_rt in Hk. cbn [rt] in HW. rewrite E in *.
-          change ((t :: r) ++ insub_op neg ++ TLP :: [TSub k] ++ [TRP]) with
-              (t :: r ++ insub_op neg ++ TLP :: [TSub k] ++ [TRP]) in HW.
-          apply insub_unwrapped in HW; [congruence|apply insub_tail_nonempty].
+        * rewrite (open_insub_wrapped neg a s W C) in HW. discriminate.
     - cbn [app]. rewrite <- app_assoc. cbn [app].
       fuel f. rewrite parse_nonnot by discriminate. fuel f. cbn [unary].
       rewrite (W_of_G n HG) by lia. cbn [pbind fst snd]. apply HK. lia.
   Qed.
 
-  Lemma L_insub neg a k : wf a = true -> unary_ok a = true -> Us a ->
-    Gs (NINSubquery neg a (NSelect k)) -> Us (NINSubquery neg a (NSelect k)) ->
-    Ls (NINSubquery neg a (NSelect k)).
-  Proof.
-    intros Wa Ua HUa HG HU.
-    destruct (bare_insub d (NINSubquery neg a (NSelect k))) eqn:B.
-    2:{ apply L_generic; auto. cbn [wf]. rewrite Wa, Ua. reflexivity. }
-    intros f rest K m Hf HK. cbn [bare_insub] in B. rewrite is_lp_headed_rt in B.
-    cbn [rt]. cbn [need] in Hf.
-    set (X := insub_op neg ++ TLP :: [TSub k] ++ [TRP]).
-    assert (HW : wrap (rt d a ++ X) = rt d a ++ X).
-    { unfold wrap. destruct (rt d a) as [|t r]; [discriminate|]. destruct t; try discriminate. reflexivity. }
-    rewrite HW. rewrite <- app_assoc.
-    destruct (rt d a) as [|t r] eqn:E; [discriminate|].
-    fuel f. cbn [app]. rewrite parse_nonnot by (destruct t; discriminate).
-    change (t :: r ++ X ++ rest) with ((t :: r) ++ X ++ rest). rewrite <- E.
-    rewrite (HUa Ua) by lia. cbn [pbind fst snd]. subst X.
-    fuel f. destruct neg; cbn [insub_op app loop in_tail]; (destruct (Nat.leb_spec 0 (p_in pt)); [|lia]);
-      apply HK; lia.
-  Qed.
   (* ---------------- one-step equations of the parser *)
   Lemma primary_lp f r :
     primary pt (S f) (TLP :: r) =
@@ -438,17 +447,14 @@ Section Main.
   Variable d : dialect.
   Notation Gs := (Gs pt d). Notation Us := (Us pt d). Notation Ls := (Ls pt d).
 
-  Lemma pack n : wf n = true -> unary_ok n = true -> is_insub n = false -> Us n -> Gs n /\ Us n /\ Ls n.
+  Lemma pack n : wf n = true -> uform d n = true -> Us n -> Gs n /\ Us n /\ Ls n.
   Proof.
-    intros W U I HU. assert (HG : Gs n) by (apply G_of_U; assumption).
+    intros W U HU. assert (HG : Gs n) by (apply G_of_U; assumption).
     split; [exact HG|]. split; [exact HU|]. apply L_generic; auto.
   Qed.
 
   Lemma leb0 k : Nat.leb 0 k = true.
   Proof. reflexivity. Qed.
-
-  Lemma lvl_ok_0 n : lvl_ok pt 0 n.
-  Proof. destruct n as [| | | | | | |[]| |]; cbn; try exact I; lia. Qed.
 
   Lemma mod_call_parses a b f rest :
     Gs a -> Gs b -> need a + need b + 20 <= f ->
@@ -456,8 +462,8 @@ Section Main.
     = POk (SBin BMod (denote a) (denote b), rest).
   Proof.
     intros Ga Gb Hf. fuel f. rewrite unary_fn. fuel f. rewrite primary_mod.
-    rewrite Ga; [|lia|exact I|apply lvl_ok_0].
-    cbn [pbind]. rewrite Gb; [|lia|exact I|apply lvl_ok_0].
+    rewrite Ga; [|lia|exact I|apply (lvl_ok_0 pt d)].
+    cbn [pbind]. rewrite Gb; [|lia|exact I|apply (lvl_ok_0 pt d)].
     reflexivity.
   Qed.
 
@@ -490,19 +496,18 @@ Section Main.
     - (* SQLOp *)
       destruct op as [o| | |].
       + apply andb_true_iff in W as [Wa Wb].
-        cbn [safe] in S. apply andb_true_iff in S as [S Sc]. apply andb_true_iff in S as [Sa Sb].
+        cbn [safe] in S. apply andb_true_iff in S as [Sa Sb].
         destruct (IHa Wa Sa) as (Ga & Ua & La). destruct (IHb Wb Sb) as (Gb & Ub & Lb).
-        apply pack; [cbn [wf]; rewrite Wa, Wb; reflexivity|reflexivity|reflexivity|].
+        apply pack; [cbn [wf]; rewrite Wa, Wb; reflexivity|reflexivity|].
         intros _ f rest Hf. cbn [need] in Hf. cbn [rt denote optoks]. rewrite sqlop_app.
         apply (sqlop_parses a [TOp o] (wrap (rt d b)) f rest _ La (need b + 7)); [lia|].
         intros g Hg. cbn [app]. fuel g. rewrite loop_op, leb0.
-        rewrite (RO pt d b Wb Gb Ub); [|lia|exact I|].
-        * cbn [pbind fst snd]. fuel g. apply loop_stops. exact I.
-        * intros Hb. rewrite Hb in Sc. apply Nat.leb_le in Sc. exact Sc.
+        rewrite (RO pt d b Wb Gb Ub); [|lia|exact I].
+        cbn [pbind fst snd]. fuel g. apply loop_stops. exact I.
       + (* IN list *)
         apply andb_true_iff in W as [Wa Wb]. destruct b as [| |l| | | | | | |]; try discriminate.
         cbn [safe] in S. destruct (IHa Wa S) as (Ga & Ua & La).
-        apply pack; [cbn [wf]; rewrite Wa; reflexivity|reflexivity|reflexivity|].
+        apply pack; [cbn [wf]; rewrite Wa; reflexivity|reflexivity|].
         intros _ f rest Hf. cbn [need] in Hf. cbn [rt denote optoks]. rewrite sqlop_app.
         unfold wrap at 2. cbn [is_lp_headed orb].
         apply (sqlop_parses a [TIn] (TLP :: list_st l ++ [TRP]) f rest _ La 2); [lia|].
@@ -511,7 +516,7 @@ Section Main.
       + (* IS NULL *)
         apply andb_true_iff in W as [Wa Wb]. destruct b as [|[]| | | | | | | |]; try discriminate.
         cbn [safe] in S. destruct (IHa Wa S) as (Ga & Ua & La).
-        apply pack; [cbn [wf]; rewrite Wa; reflexivity|reflexivity|reflexivity|].
+        apply pack; [cbn [wf]; rewrite Wa; reflexivity|reflexivity|].
         intros _ f rest Hf. cbn [need] in Hf. cbn [rt denote optoks]. rewrite sqlop_app.
         change (wrap (atom_st ANone)) with [TNull].
         apply (sqlop_parses a [TIs] [TNull] f rest _ La 2); [lia|].
@@ -519,44 +524,43 @@ Section Main.
       + (* IS NOT NULL *)
         apply andb_true_iff in W as [Wa Wb]. destruct b as [|[]| | | | | | | |]; try discriminate.
         cbn [safe] in S. destruct (IHa Wa S) as (Ga & Ua & La).
-        apply pack; [cbn [wf]; rewrite Wa; reflexivity|reflexivity|reflexivity|].
+        apply pack; [cbn [wf]; rewrite Wa; reflexivity|reflexivity|].
         intros _ f rest Hf. cbn [need] in Hf. cbn [rt denote optoks]. rewrite sqlop_app.
         change (wrap (atom_st ANone)) with [TNull].
         apply (sqlop_parses a [TIs; TNot] [TNull] f rest _ La 2); [lia|].
         intros g Hg. cbn [app]. fuel g. rewrite loop_isnot, leb0. fuel g. apply loop_stops. exact I.
     - (* SQLModulo *)
       apply andb_true_iff in W as [Wa Wb].
-      cbn [safe] in S. apply andb_true_iff in S as [S Sc]. apply andb_true_iff in S as [Sa Sb].
+      cbn [safe] in S. apply andb_true_iff in S as [Sa Sb].
       destruct (IHa Wa Sa) as (Ga & Ua & La). destruct (IHb Wb Sb) as (Gb & Ub & Lb).
-      apply pack; [cbn [wf]; rewrite Wa, Wb; reflexivity|reflexivity|reflexivity|].
+      apply pack; [cbn [wf]; rewrite Wa, Wb; reflexivity|reflexivity|].
       intros _ f rest Hf. cbn [need] in Hf. cbn [rt denote].
       destruct (is_sqlite d) eqn:D.
       + rewrite sqlop_app.
         apply (sqlop_parses a [TOp BMod] (wrap (rt d b)) f rest _ La (need b + 7)); [lia|].
         intros g Hg. cbn [app]. fuel g. rewrite loop_op, leb0.
-        rewrite (RO pt d b Wb Gb Ub); [|lia|exact I|].
-        * cbn [pbind fst snd]. fuel g. apply loop_stops. exact I.
-        * intros Hb. rewrite Hb in Sc. cbn [andb] in Sc. apply Nat.leb_le in Sc. exact Sc.
+        rewrite (RO pt d b Wb Gb Ub); [|lia|exact I].
+        cbn [pbind fst snd]. fuel g. apply loop_stops. exact I.
       + cbn [app]. repeat (rewrite <- app_assoc; cbn [app]). apply mod_call_parses; assumption.
     - (* MOD(a, b) *)
       apply andb_true_iff in W as [Wa Wb].
       cbn [safe] in S. apply andb_true_iff in S as [Sa Sb].
       destruct (IHa Wa Sa) as (Ga & Ua & La). destruct (IHb Wb Sb) as (Gb & Ub & Lb).
-      apply pack; [cbn [wf]; rewrite Wa, Wb; reflexivity|reflexivity|reflexivity|].
+      apply pack; [cbn [wf]; rewrite Wa, Wb; reflexivity|reflexivity|].
       intros _ f rest Hf. cbn [need] in Hf. destruct fn. cbn [rt denote].
       cbn [app]. repeat (rewrite <- app_assoc; cbn [app]). apply mod_call_parses; assumption.
     - (* SQLPrefix *)
       destruct p.
       + apply andb_true_iff in W as [Wa Uok]. cbn [safe] in S.
         destruct (IHa Wa S) as (Ga & Ua & La).
-        apply pack; [cbn [wf]; rewrite Wa, Uok; reflexivity|reflexivity|reflexivity|].
+        apply pack; [cbn [wf]; rewrite Wa, Uok; reflexivity|reflexivity|].
         intros _ f rest Hf. cbn [need] in Hf. cbn [rt denote prefixtoks app].
-        fuel f. rewrite unary_neg. rewrite (Ua Uok) by lia. reflexivity.
+        fuel f. rewrite unary_neg. rewrite (Ua (uform_of_unary_ok d a Uok)) by lia. reflexivity.
       + apply andb_true_iff in W as [Wa Uok]. cbn [safe] in S.
         destruct (IHa Wa S) as (Ga & Ua & La).
-        apply pack; [cbn [wf]; rewrite Wa, Uok; reflexivity|reflexivity|reflexivity|].
+        apply pack; [cbn [wf]; rewrite Wa, Uok; reflexivity|reflexivity|].
         intros _ f rest Hf. cbn [need] in Hf. cbn [rt denote prefixtoks app].
-        fuel f. rewrite unary_pos. rewrite (Ua Uok) by lia. reflexivity.
+        fuel f. rewrite unary_pos. rewrite (Ua (uform_of_unary_ok d a Uok)) by lia. reflexivity.
       + cbn [safe] in S. apply andb_true_iff in S as [Sa Sc].
         destruct (IHa W Sa) as (Ga & Ua & La).
         assert (HG : Gs (NSQLPrefix PNot a)).
@@ -565,24 +569,43 @@ Section Main.
           destruct (Nat.leb_spec minp (p_not pt)); [|lia].
           rewrite Ga; [|lia|exact Hs|].
           - cbn [pbind fst snd]. fuel f. now apply loop_stops.
-          - destruct a as [| | | | | | |[]| |]; cbn [lvl_ok]; try exact I; try lia.
-            cbn [is_insub] in Sc. apply Nat.leb_le in Sc. exact Sc. }
+          - destruct a as [| | | | | | |[]|neg' a' s'|]; cbn [lvl_ok]; try exact I; try lia.
+            destruct (closed_rt d (NINSubquery neg' a' s')) eqn:C; [now left|right].
+            rewrite closed_insub_rt, C in Sc. cbn [is_insub andb negb] in Sc.
+            apply Nat.leb_le in Sc. exact Sc. }
         split; [exact HG|]. split; [intros U; discriminate|].
         apply L_generic; auto. intros U; discriminate.
     - (* INSubquery *)
       destruct (insub_shape d neg a s W) as (t & r & k & E & Ht & -> & Wa & Uok).
       cbn [safe] in S. destruct (IHa Wa S) as (Ga & Ua & La).
-      assert (HG : Gs (NINSubquery neg a (NSelect k))).
-      { intros f minp rest Hf Hs Hl. cbn [need] in Hf. cbn [lvl_ok] in Hl.
-        cbn [rt denote]. rewrite <- !app_assoc. fuel f. rewrite E. cbn [app].
+      (* the unparenthesised form  item IN (subquery) *)
+      assert (GI : forall f minp rest, need a + 4 <= f -> stops rest -> minp <= p_in pt ->
+                 parse pt f minp (rt d a ++ insub_op neg ++ [TLP] ++ [TSub k] ++ TRP :: rest)
+                 = POk (SInSub neg (denote a) k, rest)).
+      { intros f minp rest Hf Hs Hl. fuel f. rewrite E. cbn [app].
         rewrite parse_nonnot by exact Ht.
         change (t :: r ++ insub_op neg ++ TLP :: TSub k :: TRP :: rest)
           with ((t :: r) ++ insub_op neg ++ TLP :: TSub k :: TRP :: rest).
-        rewrite <- E. rewrite (Ua Uok) by lia. cbn [pbind fst snd].
+        rewrite <- E. rewrite (Ua (uform_of_unary_ok d a Uok)) by lia. cbn [pbind fst snd].
         fuel f. destruct neg; cbn [insub_op app]; rewrite ?loop_in, ?loop_notin, in_tail_sub;
           (destruct (Nat.leb_spec minp (p_in pt)); [|lia]); fuel f; now apply loop_stops. }
-      split; [exact HG|]. split; [intros U; discriminate|].
-      apply L_insub; auto. intros U; discriminate.
+      destruct (is_lp_headed (rt d a)) eqn:C.
+      + (* parenthesised as a whole: a primary *)
+        apply pack; [cbn [wf]; rewrite Wa, Uok; reflexivity|unfold uform; cbn [closed_rt]; rewrite C; apply orb_true_r|].
+        intros _ f rest Hf. cbn [need] in Hf. cbn [rt denote]. unfold insub_repr. rewrite C.
+        cbn [rt app]. rewrite <- !app_assoc. cbn [app].
+        fuel f. rewrite unary_lp. fuel f. rewrite primary_lp.
+        change (rt d a ++ insub_op neg ++ TLP :: TSub k :: TRP :: TRP :: rest)
+          with (rt d a ++ insub_op neg ++ [TLP] ++ [TSub k] ++ TRP :: TRP :: rest).
+        rewrite GI; [reflexivity|lia|exact I|lia].
+      + assert (HG : Gs (NINSubquery neg a (NSelect k))).
+        { intros f minp rest Hf Hs Hl. cbn [need] in Hf. cbn [lvl_ok closed_rt] in Hl.
+          destruct Hl as [Hl|Hl]; [congruence|].
+          cbn [rt denote]. unfold insub_repr. rewrite C. cbn [rt]. rewrite <- !app_assoc.
+          change (([TRP] ++ rest)) with (TRP :: rest). apply GI; [lia|exact Hs|exact Hl]. }
+        assert (HU : Us (NINSubquery neg a (NSelect k))).
+        { intros U. unfold uform in U. cbn [unary_ok is_insub negb andb orb closed_rt] in U. congruence. }
+        split; [exact HG|]. split; [exact HU|]. apply L_generic; auto.
   Qed.
 End Main.
 
@@ -618,7 +641,8 @@ Proof.
     + cbn [length]. rewrite !app_length. cbn [length]. rewrite app_length. cbn [length]. lia.
   - cbn [length]. rewrite !app_length. cbn [length]. rewrite app_length. cbn [length]. lia.
   - rewrite app_length. assert (1 <= length (prefixtoks p)) by (destruct p; cbn [prefixtoks length]; lia). lia.
-  - rewrite !app_length. cbn [length]. rewrite app_length. cbn [length]. lia.
+  - unfold insub_repr. destruct (is_lp_headed (rt d n1)); cbn [length]; rewrite !app_length;
+      cbn [length]; rewrite ?app_length; cbn [length]; lia.
   - cbn [length]. lia.
 Qed.
 
@@ -673,8 +697,6 @@ Proof.
     intros _. rewrite IHn1 by reflexivity. rewrite (infer_unary_ok n1 x E T). reflexivity.
 Qed.
 
-Lemma no_subquery_not_bare d n : no_subquery n = true -> bare_insub d n = false.
-Proof. destruct n; cbn; try reflexivity. discriminate. Qed.
 Lemma no_subquery_not_insub n : no_subquery n = true -> is_insub n = false.
 Proof. destruct n; cbn; try reflexivity. discriminate. Qed.
 
@@ -682,59 +704,25 @@ Lemma no_subquery_safe pt d n : no_subquery n = true -> safe pt d n = true.
 Proof.
   induction n; cbn [no_subquery safe]; try reflexivity; try discriminate.
   - intros H. apply andb_true_iff in H as [H1 H2]. destruct op.
-    + rewrite IHn1, IHn2 by assumption. rewrite (no_subquery_not_bare d n2 H2). reflexivity.
+    + rewrite IHn1, IHn2 by assumption. reflexivity.
     + now apply IHn1.
     + now apply IHn1.
     + now apply IHn1.
-  - intros H. apply andb_true_iff in H as [H1 H2].
-    rewrite IHn1, IHn2 by assumption. rewrite (no_subquery_not_bare d n2 H2).
-    rewrite andb_false_r. reflexivity.
+  - intros H. apply andb_true_iff in H as [H1 H2]. rewrite IHn1, IHn2 by assumption. reflexivity.
   - intros H. apply andb_true_iff in H as [H1 H2]. rewrite IHn1, IHn2 by assumption. reflexivity.
   - intros H. destruct p; try (now apply IHn).
     rewrite IHn by assumption. rewrite (no_subquery_not_insub n H). reflexivity.
 Qed.
 
-(* a numeric operand is never an IN-subquery *)
-Lemma num_not_bare d n x : infer n = Some x -> ity_is x TyNum = true -> bare_insub d n = false.
+(* NOT no tighter than IN: every tree is safe *)
+Lemma table_safe pt d n : Nat.leb (p_not pt) (p_in pt) = true -> safe pt d n = true.
 Proof.
-  destruct n; try reflexivity. cbn [infer].
-  destruct (infer n1); [|discriminate]. destruct (ity_is i TyNum && is_select n2); [|discriminate].
-  intros [= <-]. discriminate.
-Qed.
-
-Lemma wt_guard_safe d n :
-  wt n = true -> no_captured_insub d n = true -> safe std_table d n = true.
-Proof.
-  unfold wt. induction n; cbn [infer no_captured_insub safe]; try reflexivity.
-  - (* SQLOp *)
-    destruct op as [o| | |].
-    + destruct (infer n1) as [x|] eqn:E1; [|discriminate]. destruct (infer n2) as [y|] eqn:E2; [|discriminate].
-      intros T H. apply andb_true_iff in H as [H Hc]. apply andb_true_iff in H as [H1 H2].
-      rewrite IHn1, IHn2 by (assumption || reflexivity). cbn [andb].
-      destruct (bare_insub d n2) eqn:B; [|reflexivity].
-      destruct o; cbn [kind] in T; cbn [is_cmp kind andb negb] in Hc; try discriminate; try reflexivity;
-        (destruct (ity_is x TyNum); [|discriminate]); destruct (ity_is y TyNum) eqn:Ty; try discriminate;
-        rewrite (num_not_bare d n2 y E2 Ty) in B; discriminate.
-    + destruct (infer n1) as [x|]; [|discriminate]. intros _ H. apply andb_true_iff in H as [H1 _].
-      apply IHn1; [reflexivity|assumption].
-    + destruct (infer n1) as [x|]; [|discriminate]. intros _ H. apply andb_true_iff in H as [H1 _].
-      apply IHn1; [reflexivity|assumption].
-    + destruct (infer n1) as [x|]; [|discriminate]. intros _ H. apply andb_true_iff in H as [H1 _].
-      apply IHn1; [reflexivity|assumption].
-  - destruct (infer n1) as [x|] eqn:E1; [|discriminate]. destruct (infer n2) as [y|] eqn:E2; [|discriminate].
-    intros T H. apply andb_true_iff in H as [H1 H2].
-    rewrite IHn1, IHn2 by (assumption || reflexivity). cbn [andb].
-    destruct (ity_is x TyNum); [|discriminate]. destruct (ity_is y TyNum) eqn:Ty; [|discriminate].
-    rewrite (num_not_bare d n2 y E2 Ty). rewrite andb_false_r. reflexivity.
-  - destruct (infer n1) as [x|] eqn:E1; [|discriminate]. destruct (infer n2) as [y|] eqn:E2; [|discriminate].
-    intros T H. apply andb_true_iff in H as [H1 H2].
-    rewrite IHn1, IHn2 by (assumption || reflexivity). reflexivity.
-  - destruct p.
-    + destruct (infer n) as [x|]; [|discriminate]. intros _ H. apply IHn; [reflexivity|assumption].
-    + destruct (infer n) as [x|]; [|discriminate]. intros _ H. apply IHn; [reflexivity|assumption].
-    + destruct (infer n) as [x|]; [|discriminate]. intros _ H.
-      rewrite IHn by (assumption || reflexivity). destruct (is_insub n); reflexivity.
-  - destruct (infer n1) as [x|]; [|discriminate]. intros _ H. apply IHn1; [reflexivity|assumption].
+  intros T. induction n; cbn [safe]; try reflexivity.
+  - destruct op; rewrite ?IHn1, ?IHn2; reflexivity.
+  - rewrite IHn1, IHn2. reflexivity.
+  - rewrite IHn1, IHn2. reflexivity.
+  - destruct p; rewrite IHn; try reflexivity. rewrite T. destruct (is_insub n && negb (closed_insub d n)); reflexivity.
+  - exact IHn1.
 Qed.
 
 (* ---------------- the statements used by Props/C03.v *)
@@ -743,10 +731,14 @@ Theorem render_parse_any_table pt d n :
   parse_rendered pt (render d n) = Parsed (denote n).
 Proof. intros W N. apply parse_rendered_ok; [now apply wt_wf|now apply no_subquery_safe]. Qed.
 
-Theorem render_parse_guarded d n :
-  wt n = true -> no_captured_insub d n = true ->
-  parse_rendered std_table (render d n) = Parsed (denote n).
-Proof. intros W N. apply parse_rendered_ok; [now apply wt_wf|now apply wt_guard_safe]. Qed.
+Theorem render_parse_full d n :
+  wt n = true -> parse_rendered std_table (render d n) = Parsed (denote n).
+Proof. intros W. apply parse_rendered_ok; [now apply wt_wf|now apply table_safe]. Qed.
+
+Theorem render_parse_tables pt d n :
+  Nat.leb (p_not pt) (p_in pt) = true -> wt n = true ->
+  parse_rendered pt (render d n) = Parsed (denote n).
+Proof. intros T W. apply parse_rendered_ok; [now apply wt_wf|now apply table_safe]. Qed.
 
 Theorem render_parse_safe pt d n :
   wt n = true -> safe pt d n = true ->
